@@ -350,13 +350,15 @@ def decodeStarBattle (rows cols : Nat) (body : Str) : Option (Nat × Borders) :=
   (untilSlash body).bind fun (k, rest) =>
   (decimal k).bind fun stars => (decodeBorders rows cols rest).map fun b => (stars, b)
 
-/-- aquarium: borders, then number16 over the cells outside the board – the `cols` numbers above the board, then the
-`rows` numbers to its left (`decodeNumber16EXCell`; **UNSURE**: order top-then-left as I remember pzpr's numbering of
-the outside cells, and that the regions come first) -/
+/-- aquarium: `<borders>/<numbers>`: the borders, a `/`, then number16 over the cells outside the board – the `cols`
+numbers above the board, then the `rows` numbers to its left (`decodeNumber16EXCell`).  **UNSURE** on three counts, none of
+which could be checked offline: that the two parts are separated by `/` (cspuz writes one, deliberately, and its author
+publishes such URLs; pzpr's generic decoders simply continue in the unread text), that the regions come first, and the
+order top-then-left of the outside cells. -/
 def decodeAquarium (rows cols : Nat) (body : Str) : Option (Borders × List Int × List Int) :=
   match borders rows cols body with
-  | none => none
-  | some (b, rest) => (whole (number16 (cols + rows) rest)).map fun v => (b, v.take cols, v.drop cols)
+  | some (b, 47 :: rest) => (whole (number16 (cols + rows) rest)).map fun v => (b, v.take cols, v.drop cols)
+  | _ => none
 
 /-- compass -/
 def decodeCompass (rows cols : Nat) (body : Str) : Option (List (List CompassCell)) :=
